@@ -2477,6 +2477,17 @@ def np_isinf(x):
     raise Unsupported('np.isinf(%r)' % (x,))
 
 
+def np_full_like(a, val, dtype=None):
+    # the result takes shape AND dtype from `a`; the executor's arrays are float64 (stated assumption: integer-typed arrays
+    # are outside the deductive part, see the bounded integer-bracket stand-in of C18)
+    if isinstance(a, Lane):
+        return Lane(to_term(val), a.n, a.mask)
+    if isinstance(a, Arr2):
+        return Arr2([Lane(to_term(val), a.n) for _ in a.cols], a.n)
+    raise Unsupported('np.full_like(%r)' % (a,))
+
+
+NP._table['full_like'] = np_full_like
 NP._table['isinf'] = np_isinf
 NP._table['errstate'] = lambda *a, **k: _WarnCM()     # floating-point warnings only: no effect on values (reals)
 NP._table['ascontiguousarray'] = lambda x, dtype=None, **k: np_asarray(x, dtype)
